@@ -8,8 +8,10 @@
 (*   H               cell matrix (rows = cell vectors), boxlength = diag   *)
 (*   ppp             periodicity mask                                      *)
 (*   ts              timesteps (sequence of T)                             *)
-(*   types           particle types in 1..2,  dia = <<dia1, dia2>>, each a *)
-(*                   rational <<n, d>>;  a = <<n, d>> mobility factor      *)
+(*   types           particle types in 1..Len(dia),  dia = sequence of     *)
+(*                   diameters, each a rational <<n, d>> (species absent   *)
+(*                   from the trajectory may be listed);  a = <<n, d>>     *)
+(*                   mobility factor                                       *)
 (*   cal             "slow" | "fast";   mode  "xu" | "x" | "both"          *)
 (*   xu, x           unwrapped / wrapped positions  [frame][particle][axis]*)
 (*   hasCond, cond   per-frame selection masks (0/1)  [frame][particle]    *)
@@ -334,4 +336,50 @@ IsfBounded(c) ==
      QuarterOK(c, pd) => LET v == IsfPairX(c, pd) IN
                          /\ RLeq(<<0 - 1, 1>>, v) /\ RLeq(v, <<1, 1>>)
                          /\ (\A j \in 1..NSel(pd) : pd.s2[pd.sel[j]] = 0) => v = <<1, 1>>
+(***************************************************************************)
+(* Rows at selected lags, stated directly from the definition (no loop     *)
+(* state): for long trajectories the per-pair state machine is replaced by *)
+(* this operator; Len(DefPairsSeq) = T - k is the number of origins.       *)
+(***************************************************************************)
+RowsAt(c, variant, lags, tsq, dt) == [j \in 1..Len(lags) |-> RowT(c, variant, lags[j], tsq, dt)]
+OriginsOfLag(c, variant, k) == Len(DefPairsSeq(c, variant, k))
+DirectCounts(c, variant, lags) ==
+  \A j \in 1..Len(lags) :
+     /\ lags[j] \in 1..(c.T - 1)
+     /\ OriginsOfLag(c, variant, lags[j]) = IF variant = "log" THEN 1 ELSE c.T - lags[j]
+     /\ Cardinality(DefPairs(c, variant, lags[j])) = OriginsOfLag(c, variant, lags[j])
+
+(***************************************************************************)
+(* Call histories.  Several calls are made on ONE analysis object (or on   *)
+(* two objects, slow and fast, constructed from the same trajectory).  A   *)
+(* call is  [kind |-> "relax" | "s4", obj |-> 1 | 2, q, useCond |-> 0|1|2, *)
+(* nt, numofq, toff].  Object 1 has cal_type c.cal, object 2 the other     *)
+(* one; useCond 0 = no selection, 1 = c.cond, 2 = the masks shifted by one *)
+(* frame.  The RESULT OF A CALL IS A FUNCTION OF ITS ARGUMENTS AND THE     *)
+(* TRAJECTORY ALONE (DefCall); the algorithm keeps the wavenumber of the   *)
+(* last relaxation() call on the object (AlgCall) and must nevertheless    *)
+(* agree with DefCall after every history.                                 *)
+(***************************************************************************)
+OtherCal(cal) == IF cal = "slow" THEN "fast" ELSE "slow"
+ShiftedCond(c) == [f \in 1..c.T |-> c.cond[(f % c.T) + 1]]
+CallCase(c, call) ==
+  [c EXCEPT !.q = call.q,
+            !.cal = IF call.obj = 1 THEN c.cal ELSE OtherCal(c.cal),
+            !.hasCond = IF call.useCond = 0 THEN 0 ELSE 1,
+            !.cond = IF call.useCond = 2 THEN ShiftedCond(c) ELSE c.cond]
+CallResult(cc, variant, call, tsq, dt) ==
+  IF call.kind = "relax"
+  THEN [ kind |-> "relax", rows |-> [k \in 1..(cc.T - 1) |-> RowT(cc, variant, k, tsq, dt)], s4 |-> << >> ]
+  ELSE [ kind |-> "s4", rows |-> << >>, s4 |-> S4Exp(cc, call.nt, call.numofq) ]
+DefCall(c, variant, call, tsq, dt) == CallResult(CallCase(c, call), variant, call, tsq, dt)
+
+ObjInit == [hasq |-> 0, q |-> [pi |-> 0, n |-> 0, d |-> 1], calls |-> 0]
+AlgCall(c, variant, objs, call, tsq, dt) ==
+  LET o1 == IF call.kind = "relax"
+            THEN [objs EXCEPT ![call.obj] = [hasq |-> 1, q |-> call.q, calls |-> @.calls + 1]]
+            ELSE [objs EXCEPT ![call.obj].calls = @ + 1]
+      \* relaxation() works with the wavenumber stored on the object; sq4() reads construction-time data only
+      cc == CallCase(c, IF call.kind = "relax" THEN [call EXCEPT !.q = o1[call.obj].q] ELSE call)
+  IN  [ objs |-> o1, result |-> CallResult(cc, variant, call, tsq, dt) ]
+SameArgs(a, b) == a = b
 =============================================================================
